@@ -1,4 +1,4 @@
 import Driver.Loop
-import CanopenModel.Driver.C02
--- C06 uses the same operations as C02 (the server / local-node model)
-def main : IO Unit := Driver.run "C06" Canopen.Driver.C02.step
+import CanopenModel.Driver.C06
+-- C06: the operations of C02 (server / local-node model) plus the client's decoding of abort frames
+def main : IO Unit := Driver.run "C06" Canopen.Driver.C06.step
